@@ -1,15 +1,17 @@
 #!/bin/bash
-# usage: seedcheck.sh <seed-name> [property ids...]  -- apply a stored seeded change to /repo, run the quick checks, restore /repo
+# usage: seedcheck.sh <seed-name> [property ids...]  -- apply a stored seeded change to /repo (or to the copy named by RWS_REPO, so that a
+# background sweep that reads /repo is not disturbed), run the quick checks, restore the tree
 # prints one line per property: DETECTED (exit 1 + VIOLATION line) or MISSED (exit 0)
 name=$1; shift; d=/verif/seeded/$name
 props="$@"; [ -z "$props" ] && props=$(python3 -c "import json;print(json.load(open('$d/meta.json'))['property'])")
 cd /verif
-[ -z "$(git -C /repo status --porcelain -- src)" ] || { echo "/repo is not clean"; exit 2; }
-git -C /repo apply $d/patch.diff || { echo "patch does not apply"; exit 2; }
+R=${RWS_REPO:-/repo}; export RWS_REPO=$R
+[ -z "$(git -C $R status --porcelain -- src)" ] || { echo "$R is not clean"; exit 2; }
+git -C $R apply $d/patch.diff || { echo "patch does not apply"; exit 2; }
 for p in $props; do
   out=$(./check $p ${TIER:-quick} 2>&1); rc=$?
   v=$(echo "$out" | grep -m1 '^VIOLATION')
   if [ $rc -ne 0 ] && [ -n "$v" ]; then echo "$name $p DETECTED rc=$rc :: $v"; [ -n "$KEEP" ] && cp $(echo "$v" | sed 's/.*replay=\([^ ]*\).*/\1/') $d/replay-$p.json 2>/dev/null
   else echo "$name $p MISSED rc=$rc :: $(echo "$out" | tail -1 | cut -c1-200)"; fi
 done
-git -C /repo checkout -- . ; git -C /repo status --porcelain -- src | head -3
+git -C $R checkout -- . ; git -C $R status --porcelain -- src | head -3
